@@ -3,7 +3,7 @@
 From Coq Require Extraction.
 From Coq Require Import ExtrOcamlBasic.
 From Coq Require Import List NArith.
-From SosModel Require Import base.Sha256 model.Merkle base.Bytes model.Formats model.EventLog model.MergePatches model.Folder.
+From SosModel Require Import base.Sha256 model.Merkle base.Bytes model.Formats model.EventLog model.MergePatches model.Folder model.SyncProto.
 Extraction "../driver/model.ml"
   Sha256.sha256
   Merkle.root Merkle.head Merkle.proof_at Merkle.tree_compare Merkle.verify_leaves
@@ -16,4 +16,5 @@ Extraction "../driver/model.ml"
   EventLog.log_apply EventLog.log_reopen EventLog.log_clear EventLog.log_rewind
   EventLog.log_patch_checked EventLog.log_replace_all EventLog.rewind_and_patch EventLog.proof_eqb
   MergePatches.merge_patches
-  Folder.vstep Folder.reduce Folder.build Folder.compact Folder.op_create Folder.op_update Folder.op_delete.
+  Folder.vstep Folder.reduce Folder.build Folder.compact Folder.op_create Folder.op_update Folder.op_delete
+  SyncProto.sync_log.
